@@ -167,6 +167,16 @@ PROPS["C15"] = {
     "assumptions": ["go1.26.8 net/http transport error mapping (production go1.24.2)"],
 }
 
+PROPS["C19"] = {
+    "test": "TestC19", "level": "exploration", "registered": True, "engine": "sim",
+    "shards_quick": 8, "shards_thorough": 16, "timeout": 900,
+    "technique": "runtime monitor joining the captured access log with client-side and target-side records on a client-chosen request id",
+    "level_text": "Every way a request can end is generated through the full chain with the real logging middleware writing JSON records into a captured logger: served (GET/POST/PUT/DELETE/HEAD, sizes 0 to 1 MiB, with and without buffering), 404, HTTPS redirect, 503 on TLS for a plain service, paused-out 504, stopped 503, target 502 / 504 / truncated body, 413, 500 on response overflow, client abort while waiting, during download and during upload, upgrade. Joined on the client's X-Request-ID the oracle demands exactly one record; method, host, path, query, service (reference: the service bound to the host) and target (the fake target that logged the request, none otherwise); status and resp_content_length equal to what the client received for complete responses; 499 for a client that left while the target was working; 101 for upgrades; configured request/response header fields (mixed-case names, repeated, absent) equal to the values sent.",
+    "level_note": "Trusted: captured slog JSON output, client and target logs. For responses cut short and for aborts during upload/download only 'exactly one record' is demanded (the statement does not fix the status). For 413/502/504 the record may name the claimed target or none.",
+    "rule": "a class is (ending, method, response size, number of configured header fields)",
+    "assumptions": ["go1.26.8 net/http"],
+}
+
 ENGINES = [
     {"name": "sim", "path": "/verif/harness (world_test.go)", "kind_free_text": "real internal/server code in a testing/synctest bubble (virtual time) on an in-memory network with scripted fake targets and hook-placed delays; monitors judge recorded events", "serves_properties": []},
 ]
